@@ -359,6 +359,11 @@ def c12_corr(res, exe, driver, tier, seed, tmp):
             c = "put %s ; new 5 %s ; load 5" % (encb(F[:k]), cfg)
             cases.append((c, "cut", {"whole": whole, "full": k == len(F), "k": k, "kind": kind, "written_by": case}))
             kinds[kind] = kinds.get(kind, 0) + 1
+            if k % 5 == len(F) % 5:
+                # the same history object reads the file a second time (after clear): the same entries again
+                c2 = c + " ; clear 5 ; load 5"
+                cases.append((c2, "again", {"k": k, "kind": kind}))
+                kinds["again"] = kinds.get("again", 0) + 1
     # arbitrary / foreign bytes
     nrand = 6000 if tier == "thorough" else 1200
     good = [[0x0a], [0x0a], [0x0d], [0x5c], [0x5c], [0x6e], [0x72], [0x23, 0x56, 0x32], [0x61], [0x20],
@@ -397,6 +402,10 @@ def c12_corr(res, exe, driver, tier, seed, tmp):
                 why = "torn file (cut at %d, %s): loaded %r, written entries were %r" % (meta["k"], meta["kind"], got, E)
             if obs[2][0] not in ("ok", "err"):
                 why = "torn file: load result %s" % obs[2][0]
+        elif kind == "again":
+            if obs[2][0] == "ok" and (obs[4][0] != "ok" or obs[4][1] != obs[2][1]):
+                why = ("torn file (cut at %d, %s) loaded, cleared and loaded again by the same history: first %r, then %s %r"
+                       % (meta["k"], meta["kind"], obs[2][1], obs[4][0], obs[4][1]))
         else:
             if obs[2][0] not in ("ok", "err"):
                 why = "arbitrary bytes: load result %s" % obs[2][0]
@@ -426,13 +435,14 @@ def c12_corr(res, exe, driver, tier, seed, tmp):
                     why = "history not usable after load: add answered %s" % obs[3][0]
         if why:
             res.oracle_failures.append({"stream": "fhist-torn", "case": case, "impl": raw, "why": why})
-        if kind == "cut" and not meta["full"]:
+        if kind in ("cut", "again") and not meta.get("full"):
             res.nontrivial.add(case)
         elif kind == "bytes" and (0x5c in meta["data"] or any(x >= 0x80 for x in meta["data"])):
             res.nontrivial.add(case)
     res.rule = ("files written by the implementation itself in save / append-fast-path / append-rewrite-path scenarios "
                 "(random settings and entries over an alphabet with LF, CR, backslash, escape look-alikes, 2/3/4-byte chars), "
-                "then every cut offset >= 4 of each file (quick: at most 40 sampled cuts per file) loaded into a fresh history; "
+                "then every cut offset >= 4 of each file (quick: at most 40 sampled cuts per file) loaded into a fresh history -- "
+                "every fifth of them also cleared and loaded a second time by the same history object, the same entries expected; "
                 "plus random byte strings (with and without the V2 header) containing invalid UTF-8, lone backslashes, CR/LF "
                 "mixes, NUL, empty and header-only files, followed by add/save/reload to show the history stays usable. "
                 "Non-trivial = a strict prefix of the file (cut) / contains a backslash or a non-ASCII byte (bytes). "
